@@ -118,6 +118,18 @@ def handle (t : Array String) : String :=
         let (l, p1) := flist t (p+1); let (d, p2) := flist t p1; let (u, _) := flist t p2
         some (triples l d u) else none
     bpAnswer (bpEbeam r cur r_e e_kin (species nl kT q) fg ldu ms rd)
+  | "bpsor" =>
+    -- bpsor current r_e e_kin r nl kT q hasFg [fg] hasLdu [l d u]
+    let cur := fb t[1]!; let r_e := fb t[2]!; let e_kin := fb t[3]!
+    let (r, p) := flist t 4
+    let (nl, p) := flist t p; let (kT, p) := flist t p; let (q, p) := flist t p
+    let hasFg := t[p]! == "1"
+    let (fg, p) := if hasFg then let (f, p') := flist t (p+1); (some f, p') else (none, p+1)
+    let hasLdu := t[p]! == "1"
+    let ldu := if hasLdu then
+        let (l, p1) := flist t (p+1); let (d, p2) := flist t p1; let (u, _) := flist t p2
+        some (triples l d u) else none
+    bpAnswer (bpEbeamSor r cur r_e e_kin (species nl kT q) fg ldu)
   | "bpstep" =>
     -- one Newton update: bpstep variant e_kin r phi b0 cden nl kT q l d u -> phi' nax shape y b jd
     let v := match t[1]! with | "onaxis" => Variant.onaxis | "linear" => Variant.linear | _ => Variant.ebeam
